@@ -261,7 +261,7 @@ def get_source_info_str(source, ignore_encoding=True):
     is_free = False
     while line_tally > 0 and lines:
         line = lines.pop(0).rstrip()
-        if line and line[0] != "!":
+        if line and line[0] != "!" and not line.lstrip().startswith("#"):
             line_tally -= 1
             if line[0] != "\t" and _FREE_FORMAT_START(line[:5]) or line[-1:] == "&":
                 is_free = True
